@@ -208,6 +208,56 @@ def record(run: Run, thorough: bool) -> list[dict[str, Any]]:
                 evs.append({"op": "ctor", "ctor": name, "net": {"main": "mainnet", "test": "testnet", "regtest": "regtest" if name == "from_address" else "testnet"}[NETS[net]], "spk": bytes(r3[1][0]).hex(), "out": out_of(r3, lambda v: {"v": hx(v[1]), "net": v[2]})})
             else:
                 evs.append({"op": "ctor", "ctor": name, "net": net, "spk": bytes(r3[1][0]).hex() if r3[0] == "ok" else "", "out": out_of(r3, lambda v: {"v": hx(v[1]), "net": v[2]})})
+    # ---- BIP21 payment URIs ----
+    from decimal import Decimal
+
+    from btclib.bip21 import Bip21
+
+    def nat_hex(n: int) -> str:
+        return n.to_bytes((n.bit_length() + 7) // 8, "big").hex() if n else ""
+
+    def uri_out(u: Any) -> dict[str, Any]:
+        sats = None if u.amount is None else int(u.amount * 100_000_000)
+        return {"address": hx(u.address), "has_amount": sats is not None, "sats": "" if sats is None else nat_hex(sats), "has_label": u.label is not None, "label": hx(u.label or ""),
+                "has_message": u.message is not None, "message": hx(u.message or ""), "others": [[hx(k), hx(v)] for k, v in u.others.items()]}
+
+    def parse_ev(text: str) -> None:
+        try:
+            raw = text.encode("utf-8")
+        except UnicodeEncodeError:
+            return
+        r2 = _call(lambda: Bip21.parse(text))
+        evs.append({"op": "bip21_parse", "s": raw.hex(), "out": out_of(r2, uri_out)})
+
+    uri_addrs = [b32.p2wpkh(sec_of(7), "mainnet"), b58.p2pkh(sec_of(7), "testnet"), b32.p2wpkh(sec_of(9), "regtest").upper(), b58.p2sh(b"\x51", "mainnet")]
+    texts = ["Alice", "Alice+Bob", "a b", "50% off", "caf\u00e9 & bar", "x=y", "#1", "?", "", "\u20bf\U0001f600", "a/b:c@d!e$f'g(h)i*j,k;l", "~_.-", "%41", "tab\there"]
+    amounts = ["0", "1", "0.1", "20.3", "0.00000001", "21000000", "20999999.99999999", "1.50000000", "100", "0.10"]
+    for a in uri_addrs:
+        parse_ev(f"bitcoin:{a}")
+        for t in texts if thorough or a == uri_addrs[0] else rnd.sample(texts, 4):
+            for fields in ({"label": t}, {"message": t, "amount": rnd.choice(amounts)}, {"label": t, "message": t[::-1], "others": {"x" + t[:2]: t, "lightning": "lnbc1"}}):
+                r1 = _call(lambda: Bip21(a, fields.get("amount"), fields.get("label"), fields.get("message"), fields.get("others")).serialize())
+                am = fields.get("amount")
+                evs.append({"op": "bip21_serialize", "address": hx(a), "has_amount": am is not None, "sats": "" if am is None else nat_hex(int(Decimal(am) * 100_000_000)),
+                            "has_label": "label" in fields, "label": hx(fields.get("label", "")), "has_message": "message" in fields, "message": hx(fields.get("message", "")),
+                            "others": [[hx(k), hx(v)] for k, v in fields.get("others", {}).items()], "out": out_of(r1, lambda v: {"v": hx(v)})})
+                if r1[0] == "ok":
+                    parse_ev(r1[1])
+    a0 = uri_addrs[0]
+    queries = ["amount=1", "amount=1.", "amount=.5", "amount=.", "amount=", "amount=1e3", "amount=+1", "amount=-1", "amount=1,5", "amount=0x10", "amount=1.2.3", "amount= 1", "amount=%31",
+               "amount=21000000.00000001", "amount=0.000000001", "amount=0.000000010", "amount=21000001", "amount=00000000000000000000000000000000000001.5", "amount=1&amount=1", "amount=1&Amount=2",
+               "label=a&label=b", "label=a&%6cabel=b", "label", "label=", "=v", "&&label=x&&", "label=%", "label=%4", "label=%zz", "label=%c3", "label=%c3%a9", "label=%C3%A9", "label=%ed%a0%80", "label=%f4%90%80%80",
+               "label=%c0%af", "label=a%00b", "label=a+b", "label=a=b=c", "req-x=1", "REQ-x=1", "Req-=1", "%72eq-x=1", "re%71-x=1", "xreq-x=1", "req=1", "req-x", "foo=1&bar=2&foo=3", "foo=%26%3d",
+               "label=x#frag", "label=x#&req-y=1", "#", "label=x?y", "message=caf\u00e9", "label=%e2%82%bf", "lightning=lnbc1&label=x&amount=2"]
+    for q in queries:
+        parse_ev(f"bitcoin:{a0}?{q}")
+    for text in [f"BITCOIN:{a0.upper()}?amount=1", f"BitCoin:{a0}", f"bitcoin://{a0}", f"bitcoin:{a0}#frag", f"bitcoin:?amount=1", f"bitcoin:{a0[:-1]}?amount=1", f"bitcoinx:{a0}", f"bitcoi:{a0}", a0,
+                 f" bitcoin:{a0}", f"bitcoin :{a0}", f"bitcoin:{a0} ", f"bitcoin:{a0}?", f"bitcoin:{a0}&amount=1", f"bitcoin:{a0}?amount=1?label=x", f"b\u0131tcoin:{a0}", f"bitco\u0130n:{a0}", f"bitcoin:{uri_addrs[2]}?label=QR",
+                 f"bitcoin:{uri_addrs[2].lower()[:-2].upper() + uri_addrs[2][-2:].lower()}"]:
+        parse_ev(text)
+    for q in rnd.sample(queries, 12 if thorough else 5):
+        for m in near_misses(q, rnd, 8):
+            parse_ev(f"bitcoin:{a0}?{m}")
     # ---- WIF ----
     for net, sn in (("mainnet", "main"), ("testnet", "test")):
         for q in (1, 2**255, rnd.randrange(1, 2**256 - 2**130)):
@@ -245,6 +295,11 @@ def check(run: Run) -> None:
     run.tlc(res, "M Bech32Model")
     for v in res.violations:
         raise tlc.TLCFailure(f"Bech32Model violates {v.name}:\n{v.text[:700]}")
+    res = tlc.run("Bip21Model", cfg_text=f"SPECIFICATION Spec\nCONSTANTS MaxLen = {2 if thorough else 1}\nINVARIANT RoundTrip\nINVARIANT AmountExact\nINVARIANT AmountRefusals\nINVARIANT ReqRule\nCHECK_DEADLOCK FALSE\n",
+                  workers=16, timeout=6000)
+    run.tlc(res, "M Bip21Model")
+    for v in res.violations:
+        raise tlc.TLCFailure(f"Bip21Model violates {v.name}:\n{v.text[:700]}")
     evs = record(run, thorough)
     for e in evs:
         if isinstance(e["out"], dict) and "foreign" in e["out"]:
